@@ -82,7 +82,7 @@ func (b *exampleBuilder) buildExampleForObjectNode(node *ischema.ObjectNode) ([]
 		}
 	}
 	buf.WriteByte('}')
-	return buf.Bytes(), nil
+	return copyBytes(buf.Bytes()), nil
 }
 
 func (b *exampleBuilder) buildObjectKey(k ischema.ObjectNodeKey) ([]byte, error) {
@@ -129,7 +129,7 @@ func (b *exampleBuilder) buildExampleForArrayNode(node *ischema.ArrayNode) ([]by
 		}
 	}
 	buf.WriteByte(']')
-	return buf.Bytes(), nil
+	return copyBytes(buf.Bytes()), nil
 }
 
 func (b *exampleBuilder) buildExampleForMixedValueNode(node *ischema.MixedValueNode) ([]byte, error) {
@@ -210,7 +210,7 @@ func buildExampleForObjectNode(
 		}
 	}
 	b.WriteByte('}')
-	return b.Bytes(), nil
+	return copyBytes(b.Bytes()), nil
 }
 
 func buildExampleForArrayNode(
@@ -238,10 +238,18 @@ func buildExampleForArrayNode(
 		}
 	}
 	b.WriteByte(']')
-	return b.Bytes(), nil
+	return copyBytes(b.Bytes()), nil
 }
 
 var exampleBufferPool = sync.NewBufferPool(512)
+
+// copyBytes returns a copy of b. The buffers are given back to the pool when the
+// builder returns, so their memory must not be handed to the caller.
+func copyBytes(b []byte) []byte {
+	c := make([]byte, len(b))
+	copy(c, b)
+	return c
+}
 
 func buildExampleForMixedValueNode(
 	node *ischema.MixedValueNode,
